@@ -14,6 +14,8 @@ SCENARIOS = [
     (r'EventBus\.dispatch/ensures:(child_once|only_that_handlers_children|children_only|path_|same_object)', 'rp_dispatch_family.py'),
     (r'EventBus\.dispatch/(raises:.*:(children_unchanged|history_unchanged|queue_unchanged)|ensures:enqueued)', 'rp_dispatch_reject_children.py'),
     (r'EventBus\._run_loop/callsite:step/requires:root_context|ReentrantLock\.|EventBus\.step/exit:lock_released', 'rp_lock_inherited.py'),
+    (r'EventBus\._run_loop/callsite:step/requires:root_context|ReentrantLock\.|EventBus\.step/(exit:lock_released|callsite:process_event/requires:lock_held)|/requires:lock_held', 'rp_mutual_exclusion_family.py'),
+    (r'CleanShutdownQueue\.(put_nowait|get_nowait)/|EventBus\.(dispatch/ensures:enqueued|_get_next_event/ensures|step/(ensures|exit):.*(takes|head|dequeued))', 'rp_fifo_family.py'),
     (r'EventBus\._get_next_event/raises:cancel_not_swallowed|EventBus\._run_loop/callsite:step/requires:not_after_cancel', 'rp_exit_with_running_bus.py'),
     (r'EventBus\.step/.*task_done|EventBus\.step/inv.*queue_accounting', 'rp_idle_after_fault.py'),
     (r'EventBus\.process_event/raises:only_declared', 'rp_recursion_guard_hang.py'),
